@@ -141,6 +141,7 @@ receiveLoop:
 	for {
 		select {
 		case msg, ok := <-leftMessages:
+			verifJoinRecv(0, verifJoinKind(ok, msg.metadata, msg.err))
 			if !ok {
 				leftDone = true
 				break receiveLoop
@@ -187,6 +188,7 @@ receiveLoop:
 			// TODO: Add backpressure
 
 		case msg, ok := <-rightMessages:
+			verifJoinRecv(1, verifJoinKind(ok, msg.metadata, msg.err))
 			if !ok {
 				leftDone = false
 				break receiveLoop
@@ -256,6 +258,7 @@ receiveLoop:
 	}
 
 	for msg := range openChannel {
+		verifJoinRecv(verifJoinSide(!leftDone), verifJoinKind(true, msg.metadata, msg.err))
 		if msg.err != nil {
 			return msg.err
 		}
@@ -280,6 +283,8 @@ receiveLoop:
 			myRecordBuffer.AddRecord(msg.record)
 		}
 	}
+
+	verifJoinRecv(verifJoinSide(!leftDone), verifJoinKind(false, false, nil))
 
 	if err := processRecordsUpTo(ctx, WatermarkMaxValue); err != nil {
 		return err
